@@ -13,8 +13,9 @@ ID = "C18"
 LEVEL = "fault_enumeration"
 RULE = (
     "Faults on a level-1.1 and a level-1.5 product (2 images): image truncation at 0, 1, the "
-    "descriptor boundary +-1, every line-record boundary +-1, len-1 and 60 Hypothesis-drawn cuts "
-    "(quick) or at EVERY byte (thorough), each crossed with records_per_chunk in {1, 2, N, N+1, "
+    "descriptor boundary +-1, every line-record boundary +-1, len-1 with all five rpc values, EVERY "
+    "byte of the first image with rpc in {1, N+1} and 60 Hypothesis-drawn cuts (quick) or EVERY byte "
+    "of both images with all rpc values (thorough), each crossed with records_per_chunk in {1, 2, N, N+1, "
     "1024}; every single missing file of {summary.txt, volume directory, leader, each image}; "
     "leader and volume-directory truncation at every record boundary +-1 and every 64th byte "
     "(quick) or every byte (thorough). Faults are served by the vtrace filesystem and by really "
@@ -144,12 +145,16 @@ def enum_cases(tier):
                 for i in range(1, (n - 720) // reclens[role] + 1):
                     b = 720 + i * reclens[role]
                     cuts.update({b - 1, b, b + 1})
-                cuts = sorted(c for c in cuts if 0 <= c < n)
+                boundary = set(c for c in cuts if 0 <= c < n)
+                cuts = range(n) if role == "IMG0" else sorted(boundary)
             else:
+                boundary = set()
                 cuts = range(n)
             for cut in cuts:
                 for j, rpc in enumerate(rpcs):
                     if tier == "quick" and role == "IMG1" and rpc not in (1, 1024):
+                        continue
+                    if tier == "quick" and role == "IMG0" and cut not in boundary and rpc not in (1, N + 1):
                         continue
                     yield {"level": level, "fault": "truncate", "file": role, "cut": cut, "rpc": rpc, "fs": "vtrace" if (cut + j) % 2 else "local"}
         for role in ("LED", "VOL"):
